@@ -26,7 +26,7 @@ COQ_DEPS = ["Common/ListX.v", "Common/ObsHash.v", "Generated/Tables.v", "Model/C
 COQ_IMPORTS = "From Mesa Require Import Model.Copy Model.CopyWorld."
 COQ_CASE_TYPE = "wcase"
 COQ_RUN = "run_world"
-TABLE_CONSTRUCTS = ["c19_cell_slots", "c19_cell_getstate", "c19_gridcell_pickle", "c19_gridcell_unpickle", "c19_grid_getstate",
+TABLE_CONSTRUCTS = ["c19_cell_slots", "c19_cell_getstate", "c19_cell_add_remove", "c19_gridcell_pickle", "c19_gridcell_unpickle", "c19_grid_getstate",
                     "c19_grid_setstate_classes", "c19_grid_setstate_descr", "c19_dspace_setstate", "c19_agentset_state"]
 ENUM_ALWAYS = False
 
@@ -80,12 +80,15 @@ ASSUMPTIONS = [
     "setter leaves behind is the subject of C06/C18 (DESIGN section 5 row 2), not of C19; a move to the agent's own "
     "current cell is not performed",
     "user attributes in the instance __dict__ of cells are observed (kept by Network/Voronoi cells, dropped by grid cells: "
-    "documented behaviour, C19_user_attrs_carried); hand-made connections (Cell.connect after construction) are never "
-    "carried (C19_handmade_connections_not_carried) and are not generated",
+    "documented behaviour, C19_user_attrs_carried); hand-made connections (Cell.connect after construction, keys ('x', n)) "
+    "are generated, followed by move_relative, and are never carried by a copy (C19_handmade_connections_not_carried): "
+    "they are observed separately from the geometry's connections and excluded from the faithful comparison",
     "a copy of a SPACE reaches the model object only through an agent standing on the grid; when no agent does, the "
     "program gives the copied space a new empty model and the off-grid agents of the source are not expected on the copy",
-    "FixedAgent.remove() (which leaves the agent's cell pointer set, a C06 matter) is not performed; a removed agent keeps "
-    "its label in the program's table and can be placed again",
+    "FixedAgent.remove() is performed: the agent is deregistered and taken off the cell's list while its _mesa_cell keeps "
+    "pointing to the cell (documented fixme in the source); such a ghost pointer is observed, exempt from the wiring flag, "
+    "makes every later placement of that agent fail, and is not carried by a copy (the agent is unreachable); a removed "
+    "CellAgent keeps its label in the program's table and can be placed again",
     "an agent-set side whose model ever created an agent cannot be forgotten: Agent._ids (class-level, keyed by model) "
     "keeps the model, whose registry keeps the agents",
     "values written to the bool layer 'empty' are 0/1; extra layers are int layers with small int values",
@@ -190,7 +193,12 @@ def _caps(case):
     return [case["cap"] or 0] * n
 
 
+HANDMADE = 900
+
+
 def _key_decode(case, code):
+    if code >= HANDMADE:
+        return ("x", code)          # hand-made connection keys
     st = case["stype"]
     if st in GRIDS:
         return _offset_decode(code, len(case["dims"]))
@@ -200,6 +208,8 @@ def _key_decode(case, code):
 
 
 def _key_code(case, key):
+    if isinstance(key, tuple) and len(key) == 2 and key[0] == "x":
+        return int(key[1])
     st = case["stype"]
     if st in GRIDS:
         return _offset_code(key)
@@ -261,6 +271,8 @@ def _gen_ops(rng, case, n_pre, n_post, force_copy=True):
             return ["setuser", s, rng.randrange(ncell), rng.choice(USER_NAMES), rng.randint(0, 9)]
         if r < 0.12 and isgrid:
             return ["delempty", s]
+        if r < 0.15:
+            return ["connect", s, rng.randrange(ncell), HANDMADE + rng.randrange(3), rng.randrange(ncell)]
         if r < 0.45 or not sd["labels"]:
             if sd["labels"] and rng.random() < 0.6:
                 lab = rng.choice(sd["labels"])
@@ -273,7 +285,9 @@ def _gen_ops(rng, case, n_pre, n_post, force_copy=True):
             return ["leave", s, rng.choice(sd["labels"])]
         if r < 0.64:
             keys = sorted({k for conns in geom for k, _ in conns})
-            if keys and rng.random() < 0.85:
+            if rng.random() < 0.2:
+                k = HANDMADE + rng.randrange(3)
+            elif keys and rng.random() < 0.85:
                 k = rng.choice(keys)
             else:
                 k = rng.randint(0, 30)
@@ -521,6 +535,7 @@ def _abs(case, side):
     layers = list(sp._mesa_property_layers.items()) if isgrid else []
     out_cells = []
     conns = []
+    xconns = []
     wired = 1
     for key, c in sp._cells.items():
         labels = [getattr(a, "vid", -1) for a in c._agents]
@@ -553,12 +568,19 @@ def _abs(case, side):
                 kc = _key_code(case, k)
             except Exception:  # noqa: BLE001
                 kc = -1
-            cc.append((kc, cidx.get(id(t), -1)))
+            if kc >= HANDMADE:
+                xconns.append((cidx.get(id(c), -1), kc, cidx.get(id(t), -1)))   # hand-made: observed separately
+            else:
+                cc.append((kc, cidx.get(id(t), -1)))
         conns.append(sorted(cc))
+    ghosts = []
     for lab, a in side.tab.items():
         c = a.cell
         if c is not None and (id(c) not in cidx or not any(x is a for x in c._agents)):
-            wired = 0
+            if isinstance(a, _AGENT_CLASSES["fixed"]) and a not in side.model._agents and id(c) in cidx:
+                ghosts.append((lab, cidx[id(c)]))   # FixedAgent.remove() leaves _mesa_cell behind (documented fixme)
+            else:
+                wired = 0
     try:
         empties = sorted(cidx.get(id(c), -1) for c in sp.empties)
     except Exception:  # noqa: BLE001
@@ -585,13 +607,20 @@ def _abs(case, side):
     gridptr = 1 if getattr(model, "grid", None) is sp else 0
     user = [[int(c.__dict__.get(f"u{n}", MISSING)) for n in USER_NAMES] for c in cells]
     return {"cells": out_cells, "conns": conns, "wired": wired, "empties": empties, "members": members,
-            "registry": registry, "api": api, "kinds": kinds, "ptr": ptr, "gridptr": gridptr, "user": user}
+            "registry": registry, "api": api, "kinds": kinds, "ptr": ptr, "gridptr": gridptr, "user": user,
+            "xconns": xconns, "ghosts": ghosts}
 
 
 def _world_obs(k, ab):
     out = [-(300 + k)] + list(ab["registry"]) + [-6] + list(ab["kinds"]) + [-5, ab["ptr"], ab["gridptr"], -4]
     for u in ab["user"]:
         out += list(u)
+    out.append(-3)
+    for x in ab["xconns"]:
+        out += list(x)
+    out.append(-2)
+    for g in ab["ghosts"]:
+        out += list(g)
     return out
 
 
@@ -706,9 +735,15 @@ def _apply(case, side, op):
         return _do_move(a, cells[ci])
     if kind == "kill":
         a = side.tab.get(op[2])
-        if a is None or isinstance(a, fixed_cls) or a not in side.model._agents:
+        if a is None or a not in side.model._agents:
             return [-2]
-        a.remove()
+        a.remove()          # FixedAgent.remove(): deregistered, taken off the cell's list, _mesa_cell left as it is
+        return [0]
+    if kind == "connect":
+        _, _, ci, key, cj = op
+        if not (0 <= ci < len(cells) and 0 <= cj < len(cells)) or key < HANDMADE:
+            return [-2]
+        cells[ci].connect(cells[cj], ("x", key))
         return [0]
     if kind == "setuser":
         _, _, ci, name, v = op
@@ -835,7 +870,7 @@ def _fresh_like(case, src, reached=True):
     return tw
 
 
-_EXTRA_ASPECTS = ("registry", "user")
+_EXTRA_ASPECTS = ("registry", "user", "xconns", "ghosts")
 
 
 def _cmp_abs(a, b, extras=True):
@@ -1213,6 +1248,8 @@ def _coq_wop(op):
         return f"SForget {z(op[1])}"
     if k == "delempty":
         return f"DelEmpty {z(op[1])}"
+    if k == "connect":
+        return f"Connect {z(op[1])} {z(op[2])} {z(op[3])} {z(op[4])}"
     return f"Inner ({_coq_op(op)})"
 
 
